@@ -130,12 +130,13 @@ def process_function(res, rep, contract, repo, findings, opts):
     for t in rep.trusted:
         res.trusted.add(t)
     nsat = 0
+    sat_cases = set(c['case'] for c in rep.covers if c['result'] == 'sat')
     for c in rep.covers:
         res.covers['total'] += 1
         if c['result'] == 'sat':
             res.covers['sat'] += 1
             nsat += 1
-        elif c['result'] == 'unsat':
+        elif c['result'] == 'unsat' and c['case'] not in sat_cases:
             res.covers.setdefault('infeasible_cases', []).append('%s: %s (%s)' % (rep.qual, c['case'], c['what']))
             if 'len(' not in c['case']:
                 res.crashes.append('vacuity: case %r of %s is unreachable (%s)' % (c['case'], rep.qual, c['what']))
@@ -246,6 +247,9 @@ def write_evidence(res, level, wall, checker_cmd, explanation=''):
 
 def finish(res, level, t0, checker_cmd, explanation=''):
     wall = time.time() - t0
+    # obligations excluded by a listed known finding are reported separately, not as proved
+    excl = set(res.excluded_by_known)
+    res.obligations -= len([x for x in excl if not x.startswith('ground:')])
     write_evidence(res, level, wall, checker_cmd, explanation)
     for line in res.known:
         print(line)
